@@ -139,6 +139,37 @@ CLAIMED.update({
                      'positions imply equal bit offsets (detach() arithmetic).', ref='5 (C10)'),
 })
 
+CLAIMED.update({
+    'C22': dict(cat='other', tech='effect-set extraction per strcmp literal / switch case over the CFG of opts_setup() compared with the documented option table; ordering (can-follow) rules; provenance of helper semantics; table comparison for the environment variables',
+                text='Decides the whole (finite) mapping: every long option, short option letter and invocation name has '
+                     'exactly the documented effect set (stores of constants to option variables, opts_outmode/'
+                     'opts_decompress with their argument, parser state); the name defaults run once before any option is '
+                     'processed; opts_decompress() sets decompress = (ch == \'d\') unconditionally (last wins); -t implies '
+                     'decompression; LBZIP2, BZIP2, BZIP in this order, split by strtok at blanks/tabs, each token one '
+                     'argument, linked before argv[1..]; --small forced off before the first operand; -S sets a variable '
+                     'nothing reads; documented no-ops have the empty effect set. A hand-written replacement of the strtok '
+                     'idiom makes the check exit 2 (not decidable here) rather than pass.', ref='5 (C22)'),
+    'C09': dict(cat='other', tech='purity/effect analysis of the decoder units, provenance leaves of codec call arguments, forward slice of scheduler counters in task bodies, SSA re-entry-merge rule for resumable functions, SSA definite-assignment rule, who-reads rule for the output mode',
+                text='Decides the structural reasons the result cannot depend on configuration or schedule: decode.c/parse.c/'
+                     'crctab.c keep no state outside what they are handed, store to no global, read only constant tables and '
+                     'call nothing outside the codec; arguments of retrieve/decode/emit/parse/scan have no schedule-dependent '
+                     'leaf and task bodies neither branch on scheduler counters nor let them flow into block data; every '
+                     'local of retrieve() that is live across a suspension point is re-established on re-entry, every '
+                     'suspension saves position + the state whose label follows it, emit() restores all carried locals from '
+                     'the decoder state, parse() carries no local across words; no local is read before assignment; the output '
+                     'mode/descriptor is invisible to pipeline and codec; output order = parser order (C10 rules). Does NOT '
+                     'decide attach/detach bit arithmetic or the state numbers of emit().', ref='5 (C09)'),
+    'C03': dict(cat='other', tech='polynomial provenance of the chunk size, loop-exit classification of xread()/reader/xwrite(), who-writes rules, purity/effect analysis of the encoder units, forward slice of scheduler counters, path-sensitive tabulation of can_reorder() over position facts, dominance ordering of header/trailer',
+                text='Decides the structural reasons the output cannot depend on schedule, worker count or read '
+                     'fragmentation: compression chunk size == bs100k*100000 with no other leaf; xread() leaves its loop '
+                     'only on read()==0 or a full chunk and the reader stops exactly after a short chunk; chunk numbers '
+                     'come from next_id++ in a function only the single reader thread calls; encode.c/divbwt.c/crctab.c '
+                     'are pure and their call sites see only the level; task bodies never branch on scheduler counters; '
+                     'only do_reorder() feeds the writer, enabled exactly when the lowest queued position equals `order`, '
+                     'which only it advances; header before the writer thread exists, trailer after it is joined; xwrite() '
+                     'retries short writes. Does NOT decide the position-chain arithmetic.', ref='5 (C03)'),
+})
+
 NA = {
     'C01': 'round-trip equality is a numerical fact about RLE/BWT/MTF/Huffman and its inverse over all byte strings; '
            'no sound static argument in reach bounds it (DESIGN.md section 6); its shape-level fragments are decided '
